@@ -214,6 +214,40 @@ theorem trimRight_pad (cmd : Bytes) (k : Nat) (h : cmd.getLast? ≠ some 0) :
     have := congrArg List.reverse hr
     simpa using this.symm
 
+theorem netAddrNoTs_enc_len (a : NetAddrNoTs) (h : netAddrNoTs.wf a) : (netAddrNoTs.enc a).length = 26 := by
+  have hip : a.2.1.length = 16 := h.2.1
+  simp [netAddrNoTs, seq, seqDep, u64le, u16be, uintLE, uintBE, bytesN, hip]
+
+/-- every version message in the domain fits `MaxPayloadLength` at its protocol version -/
+theorem version_fits (pver : Nat) (v : VersionVal) (h : (version pver).wf v) :
+    ((version pver).enc v).length ≤ maxPayload "version" pver := by
+  obtain ⟨pv, sv, ts, you, me, nonce, ua, last, relay⟩ := v
+  obtain ⟨_, _, _, w4, w5, _, w7, _, _⟩ := h
+  have h4 := netAddrNoTs_enc_len you w4
+  have h5 := netAddrNoTs_enc_len me w5
+  have hua : ua.length ≤ 256 := by
+    have := w7.2
+    simp only [MaxUserAgentLen] at this
+    exact of_decide_eq_true this
+  have hv := varintSize_le ua.length
+  have hv3 : varintSize ua.length ≤ 3 := by
+    unfold varintSize
+    split
+    · omega
+    · split
+      · omega
+      · omega
+  have hrel : ((if pver ≥ BIP0037Version then boolByte else konst true).enc relay).length ≤ 1 := by
+    split
+    · cases relay <;> simp [boolByte, imap, BV.Codec.guard, u8, uintLE, leBytes]
+    · simp [konst]
+  have hmp : 350 ≤ maxPayload "version" pver := by
+    simp only [maxPayload, maxNetAddressPayload, MaxVarIntPayload, MaxUserAgentLen, if_true]
+    split <;> omega
+  simp only [version, seq, seqDep, List.length_append, h4, h5, u32le, u64le, uintLE, length_leBytes, userAgent,
+    BV.Codec.guard, varBytes, imap, charge, varint, bytesN, ← varintSize_eq] at hrel ⊢
+  omega
+
 /-! ### gates -/
 
 /-- the network address carries its timestamp exactly from `NetAddressTimeVersion` on -/
